@@ -34,7 +34,7 @@ pub fn get() -> FunctionDefinitions {
                 };
                 match self.0.apply(value, 0) {
                     Some(JsonValue::Object(map)) => {
-                        let mut new_map = IndexMap::with_capacity(length);
+                        let mut new_map = IndexMap::new();
                         for (index, (k, v)) in map.into_iter().enumerate() {
                             if new_map.len() == length {
                                 break;
@@ -46,7 +46,7 @@ pub fn get() -> FunctionDefinitions {
                         Some(new_map.into())
                     }
                     Some(JsonValue::Array(vec)) => {
-                        let mut new_vec = Vec::with_capacity(length);
+                        let mut new_vec = Vec::new();
                         for (index, i) in vec.into_iter().enumerate() {
                             if new_vec.len() == length {
                                 break;
